@@ -128,3 +128,18 @@ Proof.
   apply Hv; [apply (wchain_nonneg (sort_by ts a))|apply (wchain_nonneg (sort_by ts b))];
     try assumption; apply sort_by_in; assumption.
 Qed.
+
+(* decides wchain of a concrete list (used by the non-vacuity example) *)
+Ltac wchain_concrete :=
+  match goal with |- wchain ?l => let x := eval vm_compute in l in change (wchain x) end;
+  cbn [wchain];
+  repeat match goal with
+  | |- _ /\ _ => split
+  | |- True => exact I
+  | |- forall b, In b _ -> _ =>
+      let b := fresh "b" in let H := fresh "H" in
+      intros b H; cbn [In] in H;
+      repeat match type of H with _ \/ _ => destruct H as [H|H] end; try (destruct H); subst
+  | |- _ <= _ => vm_compute; let H := fresh in intro H; discriminate H
+  | |- ~ pos_overlap _ _ => vm_compute; let H := fresh in intro H; discriminate H
+  end.
